@@ -2166,7 +2166,8 @@ impl Value {
             range.memberof(b, env)
         }
 
-        if of.rank() != 1 {
+        // Only numbers are looked for here, anything else is found or refused by member of
+        if of.rank() != 1 || !matches!(elems, Value::Num(_) | Value::Byte(_)) {
             return fallback(of, &elems, env);
         }
 
